@@ -4,6 +4,7 @@ Imports the executable model only (core Lean + Lean.Data.Json), so it links as a
 -/
 import Lean.Data.Json
 import GontainerModel.Model.Runner
+import GontainerModel.Model.Decode
 import GontainerModel.Model.Runtime
 open Lean GM
 
@@ -41,6 +42,31 @@ def valToJson : Val → Json
   | .float r => Json.mkObj [("t", "float"), ("v", r)]
   | .str s => Json.mkObj [("t", "str"), ("v", s)]
   | .other t => Json.mkObj [("t", "other"), ("v", t)]
+
+/-- nodes for the unmarshaler model: scalars tagged like values, `{"t":"list","v":[…]}`, `{"t":"dict","v":[[k,node],…]}` -/
+def node1OfJson (j : Json) : Decode.Node1 :=
+  match jstr j "t" with
+  | "list" => .list (((j.getObjVal? "v").toOption.bind (·.getArr?.toOption)).getD #[] |>.toList.map valOfJson')
+  | "dict" => .dict (((j.getObjVal? "v").toOption.bind (·.getArr?.toOption)).getD #[] |>.toList.filterMap fun p =>
+      match p.getArr? with
+      | .ok #[Json.str k, _] => some k
+      | _ => none)
+  | _ => .v (valOfJson j)
+where
+  valOfJson' (j : Json) : Val :=
+    match jstr j "t" with
+    | "list" => .other "[]interface {}"
+    | "dict" => .other "map[string]interface {}"
+    | _ => valOfJson j
+
+def nodeOfJson (j : Json) : Decode.Node :=
+  match jstr j "t" with
+  | "list" => .list (((j.getObjVal? "v").toOption.bind (·.getArr?.toOption)).getD #[] |>.toList.map node1OfJson)
+  | "dict" => .dict (((j.getObjVal? "v").toOption.bind (·.getArr?.toOption)).getD #[] |>.toList.filterMap fun p =>
+      match p.getArr? with
+      | .ok #[Json.str k, v] => some (k, node1OfJson v)
+      | _ => none)
+  | _ => .v (valOfJson j)
 
 def pairList (a : Array Json) : List (String × String) :=
   a.toList.filterMap fun p => match p.getArr? with
@@ -296,6 +322,26 @@ def handle (j : Json) : Json :=
     | .ok cs => Json.mkObj [("ok", Json.arr (cs.map charsJ).toArray)]
     | .error b => Json.mkObj [("err", "not closed token: " ++ Val.quoteStr (String.ofList b))]
   | "quote" => Json.mkObj [("ok", Val.quoteStr (jstr j "s"))]
+  | "decodeNode" =>
+    let n := nodeOfJson ((j.getObjVal? "node").toOption.getD Json.null)
+    -- a null node never reaches a custom unmarshaler: yaml.v3 leaves the Go zero value
+    if n == .v .null then
+      match jstr j "kind" with
+      | "tag" => Json.mkObj [("ok", Json.mkObj [("name", ""), ("priority", Json.num (0 : Int))])]
+      | "call" => Json.mkObj [("ok", Json.mkObj [("method", ""), ("args", Json.arr #[]), ("immutable", false)])]
+      | _ => Json.mkObj [("ok", "invalid (0)")]
+    else
+    match jstr j "kind" with
+    | "tag" => match Decode.decodeTag n with
+      | .ok t => Json.mkObj [("ok", Json.mkObj [("name", t.name), ("priority", Json.num t.priority)])]
+      | .error e => Json.mkObj [("err", e)]
+    | "call" => match Decode.decodeCall n with
+      | .ok c => Json.mkObj [("ok", Json.mkObj [("method", c.method), ("args", Json.arr (c.args.map valToJson).toArray), ("immutable", c.immutable)])]
+      | .error e => Json.mkObj [("err", e)]
+    | "scope" => match Decode.decodeScope n with
+      | .ok sc => Json.mkObj [("ok", match sc with | .shared => "shared" | .contextual => "contextual" | .nonShared => "non_shared")]
+      | .error e => Json.mkObj [("err", e)]
+    | _ => Json.mkObj [("err", "unknown kind")]
   | "linkerVersion" =>
     let given := match j.getObjVal? "given" with
       | .ok (.str g) => some g
